@@ -29,8 +29,8 @@ m = {
     "hooks": {
         "guard": "verif",
         "enable": "go build -tags verif (the harness module /verif/harness replaces github.com/zenon-network/go-zenon by /repo and is built with -tags verif on every run)",
-        "baseline_off_cmd": "cd /repo && go test -mod=mod -vet=off -count=1 -timeout 25m ./...",
-        "source_commits": mm.HOOK_COMMITS,
+        "baseline_off_cmd": "cd /repo && go test -mod=mod -json -vet=off -count=1 -timeout 25m ./...",
+        "source_commits": [h for h in __import__("subprocess").run("git -C /repo log --format=%h --grep='verif hook'", shell=True, capture_output=True, text=True).stdout.split()] or mm.HOOK_COMMITS,
         "add_only": True,
     },
     "engines": [{
